@@ -71,6 +71,30 @@ theorem hmc_rows_independent (logp : V → K) (grad : V → V) (ke : V → K) (e
       = some (hmcStepRow logp grad ke eps half L positions[i] momenta[i] lnus[i]).1 := by
   simp [hmcStep, hp, hm, hu]
 
+/-- **`L = 0`**: with no leapfrog step the proposal is the current position, so the row keeps its position whatever the
+    momentum and the acceptance draw are (any carrier, IEEE floats included: no arithmetic on the position happens). -/
+theorem hmc_step_L0 (logp : V → K) (grad : V → V) (ke : V → K) (eps half : K) (x p : V) (lnu : K) :
+    (hmcStepRow logp grad ke eps half 0 x p lnu).1 = x := by
+  simp only [hmcStepRow, leapfrogCode, iter]
+  exact ite_self x
+
+/-- the row's new position is always one of exactly two values: the old position or the end of the `L`-step trajectory —
+    never a blend of the two, never another point of the trajectory. -/
+theorem hmc_step_two_valued (logp : V → K) (grad : V → V) (ke : V → K) (eps half : K) (L : Nat) (x p : V) (lnu : K) :
+    (hmcStepRow logp grad ke eps half L x p lnu).1 = x
+    ∨ (hmcStepRow logp grad ke eps half L x p lnu).1 = ((verlet grad eps half)^[L] (x, p)).1 := by
+  have h := hmc_step_result logp grad ke eps half L x p lnu
+  simp only at h
+  by_cases hc : lnu ≤ hamiltonian logp ke x p - hamiltonian logp ke ((verlet grad eps half)^[L] (x, p)).1 ((verlet grad eps half)^[L] (x, p)).2
+  · exact Or.inr (h.1 hc)
+  · exact Or.inl (h.2 hc)
+
+/-- the batch keeps its size: as many new positions as there are (position, momentum, draw) triples. -/
+theorem hmc_step_length (logp : V → K) (grad : V → V) (ke : V → K) (eps half : K) (L : Nat)
+    (positions carried momenta : List V) (lnus : List K) (h1 : momenta.length = positions.length) (h2 : lnus.length = positions.length) :
+    (hmcStep logp grad ke eps half L positions carried momenta lnus).1.length = positions.length := by
+  simp [hmcStep, h1, h2]
+
 /-- the summands a step leaves behind are `(ε/2)·∇logp` at the end of every row's trajectory (so the invariant needed
     by the *next* call's first half-step would hold even without the recomputation, for accepted rows). -/
 theorem hmc_step_summand (logp : V → K) (grad : V → V) (ke : V → K) (eps half : K) (L : Nat) (x p : V) (lnu : K) :
